@@ -131,6 +131,23 @@ def sweep(cfg, fill, hist, transport='udp'):
     singles = {}
     for s in ids:
         singles[s.id_] = r.call(inv.read_sensor, s.id_)
+    # single reads that are IN FLIGHT TOGETHER on the object: ids sharing registers (code / label pairs), and an id
+    # asked for twice - each caller gets the value the bulk read reports
+    conc = {}
+    if len(hist) <= 1:
+        import asyncio
+        byoff = {}
+        for s in ids:
+            if type(s).__name__ not in ('Calculated', 'EnumCalculated', 'EnumBitmap22'):
+                byoff.setdefault(s.offset, []).append(s.id_)
+        groups = [g + [g[0]] for g in byoff.values() if len(g) > 1][:12] + [[ids[1].id_, ids[1].id_, ids[2].id_]]
+        for g in groups:
+            async def many(g=g):
+                return await asyncio.gather(*[inv.read_sensor(x) for x in g], return_exceptions=True)
+            res = r.call(many)
+            if res[0] == 'ok':
+                for x, v in zip(g, res[1]):
+                    conc.setdefault(x, []).append(v)
     from .c14 import Probe
     with Probe() as probe:
         bulk = r.call(inv.read_runtime_data)
@@ -171,6 +188,16 @@ def sweep(cfg, fill, hist, transport='udp'):
                                                   f'single read {v!r}, bulk {b!r}', s.id_))
             else:
                 vio.append((f'value-differs/{t}', f'{s.id_}: single read {v!r}, bulk {b!r}', s.id_))
+    for sid, vals in conc.items():
+        if sid not in data or sid in fabricated:
+            continue
+        s = [x for x in ids if x.id_ == sid][0]
+        for v in vals:
+            if isinstance(v, BaseException):
+                if not (isinstance(v, ValueError) and data[sid] is None):
+                    vio.append((f'concurrent-single-reads/{type(s).__name__}', f'{sid}: {type(v).__name__} while the bulk read reports {data[sid]!r}', sid))
+            elif not (refdec.same(v, data[sid]) or v == data[sid]):
+                vio.append((f'concurrent-single-reads/{type(s).__name__}', f'{sid}: a caller of overlapping single reads got {v!r}, bulk {data[sid]!r}', sid))
     if dev.bad:
         vio.append(('requests-parse', str(dev.bad[0][1]), None))
     return vio, h(state), len(ids)
